@@ -38,6 +38,9 @@ type TimeWheel struct {
 
 	updateNotify chan time.Time
 	stopNotify   chan struct{}
+	// closed is closed once the wheel goroutine has stopped, it unblocks
+	// Add calls racing with Close.
+	closed chan struct{}
 
 	dispatch func(TimeSlot)
 }
@@ -47,6 +50,7 @@ func NewTimeWheel(dispatch func(TimeSlot)) *TimeWheel {
 		slots:        list.New(),
 		stopNotify:   make(chan struct{}),
 		updateNotify: make(chan time.Time),
+		closed:       make(chan struct{}),
 		dispatch:     dispatch,
 	}
 	go tw.tick()
@@ -67,7 +71,12 @@ func (tw *TimeWheel) Add(target time.Time, value interface{}) {
 	tw.slots.PushBack(TimeSlot{Time: target, Value: value})
 	tw.slotsLock.Unlock()
 
-	tw.updateNotify <- target
+	// updateNotify is never closed: Add may pass the stopped check above
+	// and reach this point while (or after) Close runs.
+	select {
+	case tw.updateNotify <- target:
+	case <-tw.closed:
+	}
 }
 
 func (tw *TimeWheel) Close() {
@@ -83,7 +92,7 @@ func (tw *TimeWheel) Close() {
 
 	tw.stopNotify = nil
 
-	close(tw.updateNotify)
+	close(tw.closed)
 }
 
 func (tw *TimeWheel) tick() {
